@@ -509,10 +509,10 @@ func TestC35(t *testing.T) {
 		e := newEnv(found, rapid.Uint64().Draw(rt, "vseed"))
 		e.multi = rapid.Bool().Draw(rt, "multiStatements")
 		defer e.close()
-		tw := e.twin()
 		g := &genCtx{d: d, multi: e.multi}
 		setup := append(d.setupSQL(), g.dmlTableDDL(g.w()), g.dmlTableDDL(g.p()))
-		tw.MustExec(rt.Fatalf, setup...)
+		e.twin().MustExec(rt.Fatalf, setup...)
+		tw := e.twin() // as fresh as the client's session: per-session counters start equal
 		if err := e.start(); err != nil {
 			srvfx.Inconclusive(fmt.Errorf("start server: %w", err))
 		}
@@ -602,8 +602,8 @@ func TestC35Known(t *testing.T) {
 		d := drawDataset(rt, 12, true)
 		e := newEnv(false, rapid.Uint64().Draw(rt, "vseed"))
 		defer e.close()
+		e.twin().MustExec(rt.Fatalf, d.setupSQL()...)
 		tw := e.twin()
-		tw.MustExec(rt.Fatalf, d.setupSQL()...)
 		if err := e.start(); err != nil {
 			srvfx.Inconclusive(fmt.Errorf("start server: %w", err))
 		}
